@@ -756,6 +756,14 @@ func runProxy(sc proxyScenario) (problems []string, skipped string) {
 	}
 	var hung *websocket.Conn // fault "kick-hung": the first endpoint is a peer that never answers
 	hungClosed := make(chan struct{})
+	// the scripted peer writes from its reader goroutine (acknowledgements) and from the scenario; a websocket
+	// connection takes one writer at a time
+	var hungMu sync.Mutex
+	hungWrite := func(bs []byte) {
+		hungMu.Lock()
+		defer hungMu.Unlock()
+		hung.WriteMessage(websocket.BinaryMessage, bs)
+	}
 	if sc.fault == "kick-hung" || sc.fault == "kick-hung-hinted" || sc.fault == "graceful-silent" || sc.fault == "fatal-frame" {
 		u := "ws" + strings.TrimPrefix(ts.URL, "http") + "/"
 		hung, _, err = websocket.DefaultDialer.Dial(u, nil)
@@ -771,7 +779,7 @@ func runProxy(sc proxyScenario) (problems []string, skipped string) {
 				}
 				if sc.fault == "graceful-silent" && len(bs) >= 9 && bs[8] == 0 {
 					// it acknowledges the shutdown call — and then stays connected and silent
-					hung.WriteMessage(websocket.BinaryMessage, append(append([]byte{}, bs[:8]...), 0, 0))
+					hungWrite(append(append([]byte{}, bs[:8]...), 0, 0))
 				}
 			}
 		}()
@@ -784,7 +792,7 @@ func runProxy(sc proxyScenario) (problems []string, skipped string) {
 		if sc.fault == "kick-hung-hinted" {
 			// the peer announces that it wants to stop (shutdown hint) and then goes silent: the proxy's own
 			// graceful shutdown is already under way, and never completes, when the newer endpoint arrives
-			hung.WriteMessage(websocket.BinaryMessage, append(snix.U64(0), 7, 0))
+			hungWrite(append(snix.U64(0), 7, 0))
 			time.Sleep(100 * time.Millisecond)
 		}
 		hello := snix.ClientHello("a.test")
@@ -801,11 +809,11 @@ func runProxy(sc proxyScenario) (problems []string, skipped string) {
 		var ep2 *sniproxy.Endpoint
 		if sc.fault == "graceful-silent" {
 			// no newer endpoint: the peer itself asks to stop
-			hung.WriteMessage(websocket.BinaryMessage, append(snix.U64(0), 7, 0))
+			hungWrite(append(snix.U64(0), 7, 0))
 		} else if sc.fault == "fatal-frame" {
 			// serving ends on a protocol error while the socket is perfectly healthy: a reply carrying an error
 			// code; the proxy must still release the connection, or the endpoint behind it waits for ever
-			hung.WriteMessage(websocket.BinaryMessage, append(snix.U64(1<<40), 1, 9))
+			hungWrite(append(snix.U64(1<<40), 1, 9))
 		} else {
 			ep2, err = dialEP() // a newer connection under the same name kicks the hung one
 			if err != nil {
@@ -1079,6 +1087,8 @@ func problemClass(pr string) string {
 		return "ctl-open"
 	case strings.Contains(pr, "read on accepted connection"):
 		return "session-open"
+	case strings.Contains(pr, "a dial through the endpoint") && strings.Contains(pr, "still blocked"):
+		return "dial-blocked"
 	}
 	return "other"
 }
@@ -1247,7 +1257,7 @@ func main() {
 				k := "teardown:" + sc.fault + ":" + strings.Join(strings.Fields(pr)[:2], "-")
 				rep.Fail(k, pr, []string{op})
 			}
-			if sc.mode == "legacy" {
+			if sc.mode == "legacy" || sc.fault == "side-dial-orphaned" {
 				// second-layer models: what do they predict is left undone for this scenario?
 				cls := map[string]bool{}
 				for _, pr := range problems {
